@@ -85,14 +85,19 @@ structure RunCfg where
   defaults : List (String × Bool) := []
 
 /-- `part.check(got_stdout, got_eval, runstate, unmatched)` : try the concatenation of the last
-    `i` entries of `unmatched ++ [stdout]` for `i = 1 …`; a repr error propagates at once -/
+    `i` entries of `unmatched ++ [stdout]` for `i = 1 …`. Since the repair of the false fail found in the
+    third session a repr error no longer ends the search: a longer trailing sequence of the output may still
+    satisfy the want; only when none does is the (first) repr error raised, before any got/want error -/
 def checkTrailing (f : Flags) (want : Str) (ev : EvalResult) : List Str → Str → GotWant
   | [], acc => checkGotVsWant f want acc ev
   | u :: us, acc =>
     match checkGotVsWant f want acc ev with
     | .ok => .ok
-    | .reprError => .reprError
     | .differs => checkTrailing f want ev us (u ++ acc)
+    | .reprError =>
+      match checkTrailing f want ev us (u ++ acc) with
+      | .ok => .ok
+      | _ => .reprError
 
 /-- `unmatched` is given oldest first; candidates are built from the newest backwards -/
 def partCheck (f : Flags) (want : Str) (stdout : Str) (ev : EvalResult) (unmatched : List Str) : GotWant :=
